@@ -5,7 +5,7 @@ import GMModel.Frame
 
   The numeric mathematics (frame of three points, projection, restoration, nearest anchor) is a
   PARAMETER `Geo`: the theorems of C04 hold for all such functions; the driver instantiates it
-  with `calcule_base` etc. at `Float` (`stdGeo`).
+  with `calcule_base` etc. at `Float` (`concreteGeo`, `GMModel/EMapGeo.lean`).
 
   State of an `ExchangeMap` object:
     ref, tgt      : the construction molecules (`_refmolecule`, `_targetmolecule` — stored by
@@ -282,30 +282,5 @@ def estep (G : Geo α F P) (s : EState α F P) : EOp α → EState α F P × Opt
 def erun (G : Geo α F P) (s : EState α F P) : List (EOp α) → EState α F P
   | [] => s
   | o :: os => erun G (estep G s o).1 os
-
-/-! ### the concrete geometry of the library (used by the driver at `Float`) -/
-
-/-- lexicographic minimum of `(distance, index)` : `sorted(distances)[0][1]` -/
-def closestStd : List (Nat × V3 α) → V3 α → Option Nat
-  | [], _ => none
-  | (k, p) :: rest, q =>
-    let d := V3.norm (q - p)
-    match closestStd rest q with
-    | none => some k
-    | some k' =>
-      -- recompute the competitor's distance (keeps the function structurally simple)
-      match rest.lookup k' with
-      | none => some k
-      | some p' =>
-        let d' := V3.norm (q - p')
-        if Scalar.lt d d' then some k
-        else if Scalar.lt d' d then some k'
-        else if k ≤ k' then some k else some k'
-
-def stdGeo (scale : α) : Geo α (Frame α) (V3 α) where
-  frameOf := calculeBase
-  project f q := V3.muls (M3.mulVec ⟨f.e1, f.e2, f.e3⟩ (q - f.origin)) scale
-  restore f p := f.origin + M3.vecMul p ⟨f.e1, f.e2, f.e3⟩
-  closest := closestStd
 
 end GMHeap
